@@ -19,6 +19,7 @@ const (
 	OErr   = 1
 	OPanic = 2
 	ONil   = 3
+	OCancel = 4
 )
 
 type Dep struct {
@@ -69,6 +70,8 @@ type Module struct {
 	Ty   int      `json:"ty,omitempty"`
 	Name int      `json:"name,omitempty"`
 	Mods []Module `json:"mods,omitempty"`
+	// Shared > 0: modules with the same number are built from one and the same Go slice of entries
+	Shared int `json:"shared,omitempty"`
 }
 
 type Op struct {
@@ -116,6 +119,7 @@ type Result struct {
 	Class string     `json:"class,omitempty"`
 	CArg  int        `json:"carg,omitempty"`
 	Mods  []int      `json:"mods,omitempty"`
+	Stats [][3]int   `json:"stats,omitempty"`
 	Text  string     `json:"text,omitempty"` // error text, for humans only
 }
 
@@ -151,6 +155,9 @@ type Case struct {
 	Note  string `json:"note,omitempty"`
 	// crash: the runner died on this case (stack overflow, deadlock, fatal error)
 	Crash string `json:"crash,omitempty"`
+	// SlowClose: every Close body of a pool object yields for a moment (widens the windows in which the
+	// container's own watcher goroutines overlap a Close)
+	SlowClose bool `json:"slow_close,omitempty"`
 }
 
 // ---------------------------------------------------------------- Gallina
@@ -171,7 +178,7 @@ func gBool(b bool) string { return map[bool]string{true: "true", false: "false"}
 
 func gLife(l int) string { return []string{"Singleton", "Scoped", "Transient"}[l] }
 
-func gOutcome(o int) string { return []string{"OOk", "OErr", "OPanic", "ONil"}[o] }
+func gOutcome(o int) string { return []string{"OOk", "OErr", "OPanic", "ONil", "OCancelBuild"}[o] }
 
 func (d Dep) G() string {
 	return fmt.Sprintf("(mkDep %d %d %d %s)", d.Ty, d.Name, d.Group, gBool(d.Opt))
@@ -257,6 +264,8 @@ func (o Op) G() string {
 		return fmt.Sprintf("(OCtxDone %d %d)", o.P, o.H)
 	case "fromcontext":
 		return fmt.Sprintf("(OFromContext %d %d)", o.P, o.H)
+	case "stats":
+		return fmt.Sprintf("(OStats %d)", o.P)
 	}
 	panic("bad op " + o.Kind)
 }
@@ -326,6 +335,8 @@ func (r Result) G() string {
 		return fmt.Sprintf("(RCount %d)", r.N)
 	case "descs":
 		return "(RDescs " + gList(r.Descs, DescInfo.G) + ")"
+	case "stats":
+		return fmt.Sprintf("(RStats %d %s)", r.N, gList(r.Stats, func(t [3]int) string { return fmt.Sprintf("(%d, %d, %d)", t[0], t[1], t[2]) }))
 	case "err":
 		return fmt.Sprintf("(RErr %s %s)", gClass(r.Class, r.CArg), gList(r.Mods, gNat))
 	}
@@ -340,6 +351,8 @@ func (e Event) G() string {
 		return fmt.Sprintf("(EvClosed %s %s %d)", e.Inst.G(), gBool(e.Ok), e.Owner)
 	case "cycle":
 		return "(EvCycle " + gList(e.Path, PathNode.G) + ")"
+	case "cancel":
+		return "EvCancel"
 	}
 	panic("bad event " + e.Kind)
 }
